@@ -8,8 +8,19 @@ from .common import MachineryError, scratch
 TRIVIAL_RULE = "pattern:\n- zzzzzz\n"
 
 
-def parse_texts(texts, tag):
+def parse_texts(texts, tag, rule=None):
     """Run the real code (assembly mode, stream return mode) on every text."""
+    global TRIVIAL_RULE
+    saved = TRIVIAL_RULE
+    if rule is not None:
+        TRIVIAL_RULE = rule
+    try:
+        return _parse_texts(texts, tag)
+    finally:
+        TRIVIAL_RULE = saved
+
+
+def _parse_texts(texts, tag):
     job = {"rules": [{"id": 0, "yaml": TRIVIAL_RULE}],
            "listings": [{"id": n, "text": t} for n, t in enumerate(texts)],
            "pairs": "all", "stream_only": True, "isolate": True}
@@ -41,10 +52,10 @@ def validate(cases, report, name):
     return verdicts
 
 
-def case(mode, lines, listing, o, lines2=(), o2=None):
+def case(mode, lines, listing, o, lines2=(), o2=None, rng=()):
     c = {"mode": mode, "lines": lines, "listing": listing, "outcome": o["outcome"],
          "stream": o.get("stream", "") if o["outcome"] == "ok" else "",
-         "lines2": list(lines2), "outcome2": "", "stream2": ""}
+         "lines2": list(lines2), "outcome2": "", "stream2": "", "range": list(rng)}
     if o2 is not None:
         c["outcome2"] = o2["outcome"]
         c["stream2"] = o2.get("stream", "") if o2["outcome"] == "ok" else ""
